@@ -149,7 +149,7 @@ Proof.
   assert (Nr : ~ In (o_mid c, o) (rmap s)). { intros Hin. destruct (l_r s L _ _ Hin) as (c' & Hc' & _ & _ & _ & NS). rewrite Hc in Hc'. injection Hc' as <-. contradiction. }
   destruct (nth_error (o_items c) (o_taken c)) as [r|] eqn:En.
   - destruct (r_kind r) eqn:Ek.
-    1, 2, 3, 5: apply (Lin_client_stream s _ o c (fun c0 => c0 <| o_taken ::= S |> <| o_got ::= fun l => l ++ [r] |>) L Hc Nq Nr);
+    1, 2, 3, 5: match goal with |- Lin (updop _ ?g _) => apply (Lin_client_stream s _ o c g L Hc Nq Nr) end;
       [ reflexivity | reflexivity | reflexivity | reflexivity | reflexivity | (intros; assumption) | reflexivity | reflexivity | reflexivity | reflexivity
       | (intros _; left; unfold op_finished; cbn; now rewrite Hst)
       | (cbn; intros _; now apply S1)
@@ -160,21 +160,28 @@ Proof.
     assert (HD : has_doneP c) by (exists r; split; [eapply nth_error_In; eassumption|assumption]).
     assert (Ekd : exists ad, o_kind c = KSearch ad) by (unfold is_search in IS; destruct (o_kind c); try contradiction; eauto).
     destruct Ekd as (ad & Ekd).
-    apply (Lin_client_stream s _ o c (fun c0 => c0 <| o_taken ::= S |> <| o_res := Some r |> <| o_rx := false |>
-             <| o_status := match o_kind c0 with KSearch ad0 => if ad0 || fix7 (fx s) then SDone else SActive | _ => SActive end |>) L Hc Nq Nr);
+    match goal with |- Lin (updop _ ?g _) => apply (Lin_client_stream s _ o c g L Hc Nq Nr) end;
       [ reflexivity | reflexivity | reflexivity | reflexivity | reflexivity | (intros; assumption) | reflexivity | reflexivity | reflexivity | reflexivity
       | (intros Hin; exfalso; destruct (l_s s L _ _ Hin) as (c' & Hc' & _ & _ & _ & ND & _); rewrite Hc in Hc'; injection Hc' as <-; contradiction)
       | (cbn; rewrite Ekd, H7, orb_true_r; discriminate)
       | (cbn; rewrite Ekd, H7, orb_true_r; discriminate)
       | (intros _; exact HD)
       | (intros _; exact IS) ].
-  - destruct (o_chan c); cbn [negb].
-    + destruct (o_deadline c) as [d|]; [|exact L]. destruct (d <=? now s); [|exact L]. rewrite Hr.
-      apply (Lin_client_stream s _ o c (fun c0 => c0 <| o_status := SError |> <| o_rx := false |>) L Hc Nq Nr);
+  - assert (Pending : forall t0, Lin (updop o (fun c0 => c0 <| o_call := Some t0 |>) s)).
+    { intros t0. apply (Lin_client_stream s _ o c (fun c0 => c0 <| o_call := Some t0 |>) L Hc Nq Nr);
+      [ reflexivity | reflexivity | reflexivity | reflexivity | reflexivity | (intros; assumption) | reflexivity | reflexivity | reflexivity | reflexivity
+      | (intros _; left; unfold op_finished; cbn; now rewrite Hst)
+      | (cbn; intros _; now apply S1)
+      | (cbn; rewrite Hst; discriminate)
+      | (cbn; rewrite Hst; discriminate)
+      | (intros _; exact IS) ]. }
+    destruct (o_chan c); cbn [negb].
+    + destruct (o_tmo c) as [d|]; [|apply Pending]. match goal with |- context [if ?b then _ else _] => destruct b end; [|apply Pending]. rewrite Hr.
+      match goal with |- Lin (set scrubq _ (updop _ ?g _)) => apply (Lin_client_stream s _ o c g L Hc Nq Nr) end;
       [ reflexivity | reflexivity | reflexivity | reflexivity | reflexivity | (intros x Hx; cbn [scrubq set]; apply in_or_app; now left)
       | reflexivity | reflexivity | reflexivity | reflexivity
       | (intros _; now left) | (cbn; discriminate) | (cbn; discriminate) | (cbn; discriminate) | (intros _; exact IS) ].
-    + apply (Lin_client_stream s _ o c (fun c0 => c0 <| o_status := SError |> <| o_rx := false |>) L Hc Nq Nr);
+    + match goal with |- Lin (updop _ ?g _) => apply (Lin_client_stream s _ o c g L Hc Nq Nr) end;
       [ reflexivity | reflexivity | reflexivity | reflexivity | reflexivity | (intros; assumption)
       | reflexivity | reflexivity | reflexivity | reflexivity
       | (intros _; now left) | (cbn; discriminate) | (cbn; discriminate) | (cbn; discriminate) | (intros _; exact IS) ].
@@ -232,7 +239,7 @@ Lemma Lin_start s k tmo : Lin s -> is_running s = true -> NoDup (map o_mid (ops 
 Proof.
   intros L Hr. unfold step. destruct (next_msgid (last s) (inuse s)) as [mid| |]; try (intros; exact L). rewrite Hr.
   set (onew := mkOp mid k (option_map (Z.add (now s)) tmo) CWait OsEmpty [] 0
-                    (match k with KSearch _ => true | _ => false end) (match k with KSearch _ => true | _ => false end) [] None).
+                    (match k with KSearch _ => true | _ => false end) (match k with KSearch _ => true | _ => false end) [] None tmo None).
   set (n := length (ops s)). intros Hnd. cbn [ops set] in Hnd. rewrite map_app in Hnd. cbn [map] in Hnd. change (o_mid onew) with mid in Hnd.
   assert (Hfresh : forall o c, getop s o = Some c -> o_mid c <> mid).
   { intros o c Hc E. apply NoDup_remove_2 in Hnd. rewrite app_nil_r in Hnd. apply Hnd. rewrite <- E. apply in_map. eapply nth_error_In; eassumption. }
